@@ -317,6 +317,12 @@ impl Facts {
         frames.push(Vec::new());
     }
 
+    /// Verification seam: number of open undo frames
+    #[cfg(rre_verif)]
+    pub fn verif_undo_depth(&self) -> usize {
+        self.undo_frames.read().unwrap().len()
+    }
+
     /// Commit (discard) the top-most undo frame
     pub fn commit_undo_frame(&self) {
         let mut frames = self.undo_frames.write().unwrap();
